@@ -491,6 +491,8 @@ def directed(tier, prop="C13"):
                     variants = [[], [0x2105], [0x2107], [0x1234], [1, 2]] if st == 0xFF else [[], [0x0100], [0x7777, 1]]
                 if st == 0xFF and tier == "thorough":
                     variants.append([1, 2, 3])
+                if st in (0, 6):
+                    variants = [[]]     # additional status words accompany error statuses only
                 for ext in variants:
                     if tier == "quick" and ext and st not in (0xFF, 0x01):
                         continue
